@@ -6,6 +6,17 @@ from vf.props.c07 import _collect
 
 def run(tier, rep):
     srcs = all_sources(tier, seed())
+    # connections made under a shadow input name (connect(..., name=...)): records and graphs are keyed by node names
+    import copy
+
+    from vf import harness as H
+    from vf.fcomp import TWO
+
+    for nm, sp in (("H1", H.H1((1, 6))), ("H5", H.H5())):
+        sh = copy.deepcopy(sp)
+        for i, e in enumerate(sh["edges"]):
+            e["name"] = f"in{i}_{e['o']}"
+        srcs.append(dict(kind="async", name=f"async.{nm}.shadow-names", spec=sh, user=TWO, policy="rr"))
     with Pool() as pool:
         results = list(pool.imap("vf.c14_task", "c14_task", [dict(src=s, max_stacks=12 if tier == "quick" else 60) for s in srcs]))
     _collect(rep, results, "conversions")
